@@ -40,7 +40,8 @@ def cases(draw):
                                   st.tuples(st.just("set_samplers"), lineups()),
                                   st.tuples(st.just("set_scheduler"), lineups()),
                                   st.tuples(st.just("checkpoint")), st.tuples(st.just("read")),
-                                  st.tuples(st.just("restore"))), min_size=2, max_size=8))
+                                  st.tuples(st.just("restore")), st.tuples(st.just("new_run"), lineups())),
+                        min_size=2, max_size=8))
     ops = [list(o) for o in ops] + [["read"]]
     return {"initial": draw(lineups()), "ops": ops, "seed": draw(st.integers(0, 1000))}
 
@@ -85,6 +86,8 @@ def check_labels(ctx: Ctx, case):
             for oi, op in enumerate(case["ops"]):
                 if op[0] in ("calibrate", "checkpoint"):
                     last_write_complete = True
+                elif op[0] == "new_run":
+                    last_write_complete = False
                 elif op[0] in ("set_samplers", "set_scheduler"):
                     last_write_complete = False   # the folder no longer holds the live state: restoring would rewind
                 rows = cal.n_sampled_params
@@ -98,6 +101,12 @@ def check_labels(ctx: Ctx, case):
                 elif op[0] == "checkpoint":
                     cal.create_checkpoint(folder)
                     written = True
+                elif op[0] == "new_run":
+                    # a different calibration starts writing into the same folder (same process): ids start afresh
+                    cal = calib.build(dict(cfg, lineup=usable(op[1], 0)), saving_folder=folder)
+                    table = dict(cal.samplers_id_table)
+                    del lg.log[:]
+                    written = False
                 elif op[0] == "restore" and written and last_write_complete:
                     # carry on from the calibrator's own checkpoint: ids must survive the round trip as well
                     from black_it.calibrator import Calibrator
